@@ -15,7 +15,8 @@ Definition show_int (z:Z) : list N := if (z <? 0)%Z then 45%N :: show_nat (- z) 
 (* exact finite decimal expansion of q when the denominator divides 10^k (k <= 40); None otherwise *)
 Fixpoint find_k (fuel:nat) (k:nat) (d:Z) : option nat :=
   match fuel with O => None | S f => if ((10 ^ Z.of_nat k) mod d =? 0)%Z then Some k else find_k f (S k) d end.
-Fixpoint pad0 (n:nat) (l:list N) : list N := match n with O => l | S m => if (length l <? S m)%nat then pad0 m (48%N :: l) else l end.
+(* zfill: leading zeros up to n digits *)
+Definition pad0 (n:nat) (l:list N) : list N := repeat 48%N (n - length l) ++ l.
 Fixpoint strip0 (l:list N) : list N := match l with [] => [] | c :: r => match strip0 r with [] => if (c =? 48)%N then [] else [c] | r' => c :: r' end end.
 (* ConstantExpression.name: value % 1 == 0 -> str(int(value)); else format_float_positional(trim='-') *)
 Definition show_num (n:num) : option (list N) :=
